@@ -571,6 +571,78 @@ Section EigenAdjointModel.
     eigensolve_good F factorise shifted (fst mu) last /\ fst (snd mu) = true.
 End EigenAdjointModel.
 
+(* ---- LinSolve._response with LDAWrapper.update (modules/linalg.py, solvers/solvers.py): what is detected from the
+        matrix, and WHEN.
+          at EVERY response : self.issparse, self.iscomplex = matrix_is_complex(mat)           (LinSolve)
+                              self.A = A; diagonal_idx / nondiagonal_idx = the partition of the dofs in decoupled
+                              (only a diagonal entry: boundary-condition rows) and coupled ones, get_diagonal_indices(A);
+                              stored solution vectors cleared; inner solver updated            (LDAWrapper.update)
+          at the FIRST one  : self.ishermitian, the solver object, LDAWrapper.symmetric / hermitian   (the matrix CLASS)
+        solve (response and adjoint) goes through the partition: decoupled dofs are answered rhs_i / A_ii and removed
+        from the right-hand side; _sensitivity reads iscomplex: dmat = -lam u^T, `.real` when the matrix is not complex;
+        db = real(lam) when the CURRENT right-hand side is real.
+        Memory = (class, iscomplex, partition, u).  The class is sticky (constant within a history: agreed scope); the
+        VALUE KIND (real / complex) and the SPARSITY PATTERN (which dofs are decoupled) may change at every response. *)
+Section LinSolveDetectModel.
+  Context {K : Type}.
+  Variable C P : Type.                                   (* class flags with the solver chosen from them; a partition *)
+  Variable cls_of : list K -> C.                         (* matrix_is_hermitian, matrix_is_symmetric, auto_determine_solver *)
+  Variable is_cplx : list K -> bool.                     (* matrix_is_complex *)
+  Variable part_of : list K -> P.                        (* get_diagonal_indices *)
+  Variable solve_with : C -> P -> list K -> bool -> list K -> list K.   (* class, partition, matrix, transposed?, rhs *)
+  Variable dmat_of : bool -> list K -> list K -> list K. (* iscomplex, lam, u: -lam u^T, its real part if not iscomplex *)
+  Variable db_of : list K -> list K -> list K.           (* current rhs, lam: real(lam) if the rhs is real *)
+
+  Record dstate : Type := { d_cls : option C; d_cplx : bool; d_part : option P; d_u : option (list K) }.
+  Definition d_init : dstate := {| d_cls := None; d_cplx := false; d_part := None; d_u := None |}.
+
+  (* the detections of one response: the class only when none is held, value kind and partition always *)
+  Definition det_update (s : dstate) (A : list K) : dstate :=
+    {| d_cls := Some (match d_cls s with Some c => c | None => cls_of A end);
+       d_cplx := is_cplx A; d_part := Some (part_of A); d_u := d_u s |}.
+
+  (* a solve uses the class and the partition the module HOLDS *)
+  Definition det_solve (s : dstate) (A : list K) (tr : bool) (b : list K) : list K :=
+    match d_cls s, d_part s with
+    | Some c, Some p => solve_with c p A tr b
+    | _, _ => []                                          (* a solve before any update (an exception) *)
+    end.
+
+  Definition det_linsolve_h (ins : list ref) (out : nat) : hmod dstate :=
+    {| h_ins := ins; h_outs := [out];
+       h_resp := fun mu xs =>
+                   let s := det_update mu (nth 0 xs []) in
+                   let u := det_solve s (nth 0 xs []) false (nth 1 xs []) in
+                   ({| d_cls := d_cls s; d_cplx := d_cplx s; d_part := d_part s; d_u := Some u |}, [u]);
+       h_sens := fun mu xs ys ws =>
+                   let u := match d_u mu with Some u => u | None => [] end in
+                   let lam := det_solve mu (nth 0 xs []) true (nth 0 ws []) in
+                   [Some (dmat_of (d_cplx mu) lam u); Some (db_of (nth 1 xs []) lam)] |}.
+
+  (* a freshly constructed module that has seen only the current matrix *)
+  Definition det_f (xs : list (list K)) : list (list K) :=
+    [solve_with (cls_of (nth 0 xs [])) (part_of (nth 0 xs [])) (nth 0 xs []) false (nth 1 xs [])].
+  Definition det_g (xs ys ws : list (list K)) : list (option (list K)) :=
+    let A := nth 0 xs [] in
+    let lam := solve_with (cls_of A) (part_of A) A true (nth 0 ws []) in
+    [Some (dmat_of (is_cplx A) lam (nth 0 ys [])); Some (db_of (nth 1 xs []) lam)].
+  (* the class held is the (constant) class c0; value kind, partition and u are those of the latest response *)
+  Definition det_good (c0 : C) (mu : dstate) (last : option (list (list K))) : Prop :=
+    (d_cls mu = None \/ d_cls mu = Some c0) /\
+    match last with
+    | None => True
+    | Some xs => d_cls mu = Some c0 /\ d_cplx mu = is_cplx (nth 0 xs []) /\ d_part mu = Some (part_of (nth 0 xs [])) /\
+                 d_u mu = Some (solve_with c0 (part_of (nth 0 xs [])) (nth 0 xs []) false (nth 1 xs []))
+    end.
+
+  (* what ONE module holds after each of the responses on A_1, A_2, ...: (iscomplex, partition) *)
+  Fixpoint det_trace (s : dstate) (As : list (list K)) : list (bool * option P) :=
+    match As with
+    | [] => []
+    | A :: r => let s' := det_update s A in (d_cplx s', d_part s') :: det_trace s' r
+    end.
+End LinSolveDetectModel.
+
 (* executable instances for the bookkeeping correspondence of tools/checks/C03.py: matrices are TAGS.
    Cholesky: a matrix is [tag; 1 if positive definite else 0]; every answer names the factorisation it was computed
    with.  Adjoint solvers: Z_i of the k-th response is [k; i]. *)
@@ -583,6 +655,26 @@ Section TagInstances.
     chol_answers Z Z tag_chol tag_ldl (fun U _ _ => [U]) (fun L _ _ => [L]) [-1] (cs_init Z Z) As [].
   Definition tag_adj_trace (n : nat) (ops : list (option (list bool))) : list (list (option (list Z))) :=
     adj_trace (list Z) (fun Zm => Zm) n (fun k i => [Z.of_nat k; Z.of_nat i]) (amem0 (list Z)) 0%nat ops.
+  (* detections: a matrix is  kind :: n :: the n*n entries of `A != 0` (row major, 0/1);  kind = 1 for a complex-valued
+     matrix.  get_diagonal_indices as written in solvers/solvers.py:
+        bmat = mat != 0; has_diag = bmat.diagonal(); nnz_rows = bmat.sum(axis=0); nnz_cols = bmat.sum(axis=1)
+        logical_and(logical_and(has_diag, nnz_rows <= 1), nnz_cols <= 1);   diagonal_idx = argwhere(...) *)
+  Fixpoint chunk (m n : nat) (l : list Z) : list (list Z) :=
+    match m with O => [] | S m' => firstn n l :: chunk m' n (skipn n l) end.
+  Definition zsum (l : list Z) : Z := fold_right Z.add 0 l.
+  Definition diag_indices (rows : list (list Z)) : list Z :=
+    flat_map (fun i : nat =>
+                let has_diag := negb (Z.eqb (nth i (nth i rows []) 0) 0) in
+                let nnz_rows := zsum (map (fun r => nth i r 0) rows) in          (* sum over axis 0: column i *)
+                let nnz_cols := zsum (nth i rows []) in                          (* sum over axis 1: row i *)
+                if has_diag && Z.leb nnz_rows 1 && Z.leb nnz_cols 1 then [Z.of_nat i] else [])
+             (seq 0 (length rows)).
+  Definition tag_rows (A : list Z) : list (list Z) := chunk (Z.to_nat (nth 1 A 0)) (Z.to_nat (nth 1 A 0)) (skipn 2 A).
+  Definition tag_det_trace (As : list (list Z)) : list (list Z) :=
+    map (fun cp : bool * option (list Z) =>
+           (if fst cp then 1 else 0) :: match snd cp with Some l => l | None => [-1] end)
+        (det_trace unit (list Z) (fun _ => tt) (fun A => Z.eqb (nth 0 A 0) 1) (fun A => diag_indices (tag_rows A))
+                   (d_init unit (list Z)) As).
 End TagInstances.
 
 (* =====================================================================================================
